@@ -1,9 +1,16 @@
 package main
 
 import (
+	"bytes"
 	"context"
+	"database/sql"
 	"fmt"
 	"strings"
+	"time"
+
+	"github.com/jdillenkofer/pithos/internal/storage/database"
+	"github.com/jdillenkofer/pithos/internal/storage/metadatapart"
+	"github.com/jdillenkofer/pithos/internal/storage/metadatapart/partstore"
 
 	"github.com/jdillenkofer/pithos/internal/verif/vkit"
 	"github.com/jdillenkofer/pithos/internal/verif/vmodel"
@@ -18,6 +25,9 @@ func reclaimHistories(ctx context.Context, r *vkit.Run, base *vkit.Rand) {
 	if r.Thorough() {
 		stacks = []string{"fs", "sql", "named", "ec21", "zstd>fs", "outbox>fs", "cache>fs"}
 		nh, steps = 10, 120
+	}
+	for i, spec := range []string{"fs", "sql"} {
+		idleGraceScenario(ctx, r, i, spec)
 	}
 	for _, stack := range stacks {
 		for hi := 0; hi < nh; hi++ {
@@ -57,6 +67,79 @@ func reclaimHistories(ctx context.Context, r *vkit.Run, base *vkit.Rand) {
 			}
 			se.close()
 		}
+	}
+}
+
+// idleGraceScenario: an orphan part (written straight into the leaf store, as a
+// crash between publication and commit leaves it) is still inside the grace
+// window when a GC pass looks at it; then the server is completely idle (no write
+// transaction) until the window has elapsed; the following passes must reclaim it.
+func idleGraceScenario(ctx context.Context, r *vkit.Run, idx int, spec string) {
+	dir := r.SubDir(fmt.Sprintf("c09-idle-%d", idx))
+	env, err := vkit.OpenEnv(dir)
+	if err != nil {
+		r.Inconclusive(err.Error())
+		return
+	}
+	defer env.Close()
+	var leaves []partstore.PartStore
+	env.WrapLeaf = func(kind string, ps partstore.PartStore) partstore.PartStore {
+		leaves = append(leaves, ps)
+		return ps
+	}
+	s, err := env.NewStorage(spec, metadatapart.WithGCGraceWindow(150*time.Millisecond), metadatapart.WithGCInterval(time.Hour))
+	if err != nil {
+		r.Inconclusive(err.Error())
+		return
+	}
+	defer s.Stop(ctx)
+	se := &stackEnv{dir: dir, spec: spec, env: env, s: s}
+	// some ordinary content so the store is not empty
+	for _, op := range []*vmodel.Op{{Kind: vmodel.OpCreateBucket, Bucket: "idle"}, {Kind: vmodel.OpPut, Bucket: "idle", Key: "k", Body: []byte("kept")}} {
+		if res := vmodel.Exec(ctx, s, op); res.Kind != "" {
+			r.Inconclusive("idle scenario setup: " + res.ErrText)
+			return
+		}
+	}
+	time.Sleep(200 * time.Millisecond)
+	// the orphan
+	orphan, err := partstore.NewRandomPartId()
+	if err != nil || len(leaves) == 0 {
+		r.Inconclusive("idle scenario: no leaf store")
+		return
+	}
+	if partstore.CapabilitiesOf(leaves[0]).Has(partstore.CapabilityTxFreePutPart) {
+		err = leaves[0].PutPart(ctx, nil, *orphan, bytes.NewReader([]byte("orphan bytes")))
+	} else {
+		err = database.WithTx(ctx, env.DB, &sql.TxOptions{}, func(ctx context.Context, tx database.Tx) error {
+			return leaves[0].PutPart(ctx, tx, *orphan, bytes.NewReader([]byte("orphan bytes")))
+		})
+	}
+	if err != nil {
+		r.Inconclusive("idle scenario: cannot plant orphan: " + err.Error())
+		return
+	}
+	// a pass that sees it while it is too young
+	if err := metadatapart.RunGCOnce(ctx, s); err != nil {
+		r.Inconclusive("gc: " + err.Error())
+		return
+	}
+	held, _ := vmodel.StorePartIDs(ctx, env.DB, s)
+	stillThere := false
+	for _, ids := range held {
+		if ids[orphan.String()] {
+			stillThere = true
+		}
+	}
+	r.Count("idle_scenarios", 1)
+	if !stillThere {
+		r.Count("idle_scenario_orphan_already_gone_after_first_pass", 1)
+	}
+	time.Sleep(220 * time.Millisecond) // idle: no write transaction, grace window elapses
+	probs, _ := reclaimCheck(ctx, se)
+	r.Eval(fmt.Sprintf("idle-grace|%s|young-at-first-pass=%v", spec, stillThere))
+	for _, p := range probs {
+		r.Violation("after-idle-grace-window:"+problemSig(p), fmt.Sprintf("stack %s: orphan part %s was inside the grace window at the first GC pass; after an idle period longer than the window and two more passes: %s", spec, orphan.String(), p), map[string]any{"stack": spec, "scenario": "idle-grace", "problem": p})
 	}
 }
 
